@@ -4,6 +4,7 @@ import (
 	"context"
 	"database/sql/driver"
 	"fmt"
+	"github.com/jackc/pgx/v5/pgconn"
 	"math/big"
 	"regexp"
 	"sort"
@@ -47,6 +48,8 @@ var (
 	reDropSchema = regexp.MustCompile(`(?is)^DROP SCHEMA (?:IF EXISTS )?"([^"]+)"`)
 	reInsert     = regexp.MustCompile(`(?is)^INSERT INTO "([^"]+)"\.(\w+)(?: AS "?\w+"?)?\s*\(([^)]*)\)\s*VALUES\s*(.*)$`)
 )
+
+var reEmptyValues = regexp.MustCompile(`(?i)\bvalues\s*(\(\s*\))?\s*(returning\b|on\s+conflict\b|$)`)
 
 func parseTuples(s string) (tuples [][]string, rest string) {
 	i := 0
@@ -162,6 +165,10 @@ func (t *Tables) Respond(ctx context.Context, c *pgshim.Conn, kind, sql string) 
 		}
 		t.mu.Unlock()
 		return &pgshim.Rows{}, true, nil
+	}
+	if strings.HasPrefix(up, "INSERT") && reEmptyValues.MatchString(trim) {
+		// what Postgres answers to INSERT ... VALUES () / VALUES with no row
+		return nil, true, &pgconn.PgError{Severity: "ERROR", Code: "42601", Message: `syntax error at or near ")"`}
 	}
 	m := reInsert.FindStringSubmatch(trim)
 	if m == nil {
